@@ -108,16 +108,14 @@ Proof. reflexivity. Qed.
 (* _Slice.pairwise_means_indices *)
 Lemma gen_wiring_Slice_pairwise_means_indices :
   wsrc_Slice_pairwise_means_indices = Some (WTryValueError (WCall (WSelf "_pairwise_means_indices")
-      [WSelf "_alpha"; WSelf "_only_larger"] []) "`.pairwise_means_indices` is undefined for a
-      cube-result without a mean measure").
+      [WSelf "_alpha"; WSelf "_only_larger"] []) "").
 Proof. reflexivity. Qed.
 
 (* _Slice.pairwise_means_indices_alt *)
 Lemma gen_wiring_Slice_pairwise_means_indices_alt :
   wsrc_Slice_pairwise_means_indices_alt = Some (WIf (WCmp "is" (WSelf "_alpha_alt") (WNone)) (WNone)
       (WTryValueError (WCall (WSelf "_pairwise_means_indices") [WSelf "_alpha_alt"; WSelf
-      "_only_larger"] []) "`.pairwise_means_indices_alt` is undefined for a cube-result without a
-      mean measure")).
+      "_only_larger"] []) "")).
 Proof. reflexivity. Qed.
 
 (* _Slice.pairwise_significance_p_vals *)
@@ -135,17 +133,13 @@ Proof. reflexivity. Qed.
 (* _Slice.pairwise_significance_means_p_vals *)
 Lemma gen_wiring_Slice_pairwise_significance_means_p_vals :
   wsrc_Slice_pairwise_significance_means_p_vals = Some (WTryValueError (WCall (WSelf
-      "_pairwise_significance_means_p_vals") [WVar "column_idx"] [])
-      "`.pairwise_significance_means_p_vals` is undefined for a cube-result without a mean
-      measure").
+      "_pairwise_significance_means_p_vals") [WVar "column_idx"] []) "").
 Proof. reflexivity. Qed.
 
 (* _Slice.pairwise_significance_means_t_stats *)
 Lemma gen_wiring_Slice_pairwise_significance_means_t_stats :
   wsrc_Slice_pairwise_significance_means_t_stats = Some (WTryValueError (WCall (WSelf
-      "_pairwise_significance_means_t_stats") [WVar "column_idx"] [])
-      "`.pairwise_significance_means_t_stats` is undefined for a cube-result without a mean
-      measure").
+      "_pairwise_significance_means_t_stats") [WVar "column_idx"] []) "").
 Proof. reflexivity. Qed.
 
 (* _Slice.pairwise_significance_tests *)
